@@ -35,7 +35,9 @@ CF = F + 'features.compute_features'
 prop('C01',
      level='other',
      units=[CF, F + 'shape.compute_shape_features', F + 'cyclepoints.compute_cyclepoints',
-            'bycycle.burst.cycle.detect_bursts_cycles', 'bycycle.utils.dataframes.drop_samples_df'],
+            'bycycle.burst.cycle.detect_bursts_cycles', 'bycycle.utils.dataframes.drop_samples_df',
+            'bycycle.cyclepoints.zerox.find_zerox', 'bycycle.cyclepoints.zerox._find_flank_midpoints',
+            'bycycle.burst.utils.check_min_burst_cycles'],
      jobs=['pipeline:C01', 'find_extrema', 'find_zerox', 'armed'],
      unit_jobs={},
      trusted=[EXTERNAL['filter']],
@@ -43,9 +45,10 @@ prop('C01',
                  'compute_features / compute_shape_features / compute_cyclepoints return a table of >= 1 rows whose sample '
                  'columns satisfy the row, boundary, midpoint and tiling invariant, for both centrings, with and without '
                  'sample columns; no exception other than the documented ValueErrors (incl. the read-only-view and '
-                 'n_seconds paths). ASSUMED, not yet proved: the contracts of find_extrema (strict alternation inside the '
-                 'boundary, equal counts) and find_zerox (one midpoint per flank, inside its flank) - their bodies are '
-                 'covered by the bounded corpus job only. Bounded: armed corpus (pipeline:C01).')
+                 'n_seconds paths); find_zerox (one midpoint per flank, inside its flank) and check_min_burst_cycles are proved too. '
+                 'ASSUMED, not proved: the contract of find_extrema (strict alternation inside the boundary, equal counts, given '
+                 'osc3) - its two nested search loops are covered by the bounded jobs only (enumerated filtered-signal sign patterns, '
+                 'corpus). Bounded: armed corpus (pipeline:C01, armed), find_extrema / find_zerox stand-ins.')
 
 prop('C04',
      level='other',
@@ -125,9 +128,15 @@ prop('C02', level='other', units=[], jobs=['find_extrema'],
                  'first_extrema values, plus the real filter on the corpus, against the first-extremum-per-closed-half-wave '
                  'reference. The callee-side contract of find_extrema (alternation, boundary) is assumed by C01.')
 
-prop('C03', level='other', units=[], jobs=['find_zerox'],
-     explanation='Bounded only so far: find_zerox on every integer-valued signal over {-1,0,1,2} up to length 6 (quick, sampled) / 7 '
-                 '(thorough) and every alternating extrema sequence, against the half-height / temporal-median / fallback reference.')
+ZX = 'bycycle.cyclepoints.zerox.'
+prop('C03', level='other', units=[ZX + 'find_zerox', ZX + '_find_flank_midpoints'], jobs=['find_zerox'],
+     unit_jobs={ZX + 'find_zerox': ['find_zerox'], ZX + '_find_flank_midpoints': ['find_zerox']},
+     explanation='Proved (all four orders of first extremum / count relation, unbounded): find_zerox returns one rise per '
+                 'trough->peak flank and one decay per peak->trough flank, in temporal order, paired with the right extrema '
+                 '(index bias), each midpoint inside its flank; the flank window is [start extremum, end extremum] inclusive; no index '
+                 'error / empty-median for alternating extrema. find_flank_zerox is verified inline. Bounded only: the exact '
+                 'position (sample just before the half-height crossing, temporal median rounded down, fallbacks) - every integer-valued '
+                 'signal over {-1,0,1,2} up to length 6 (7) x every alternating extrema sequence.')
 
 prop('C08', level='proof',
      units=[BU + 'check_min_burst_cycles'],
